@@ -12,6 +12,7 @@
 // What is not: see the //@dropped lines at the end.
 use vstd::prelude::*;
 use std::sync::Arc;
+use std::collections::HashMap;
 //@include common/value_tree_items.rs
 #[allow(dead_code, unused)]
 mod ar_ext {
@@ -131,7 +132,7 @@ impl RSV {
 .transform_data(insert_sub_words)
 //@new
 .tx_exec_isw()
-//@rw R-SIG
+//@rw R-SIG optional
 //@old
 .is_some_and(|$1| $2)
 //@new
@@ -259,6 +260,17 @@ pub open spec fn packs_one(e: TypeExpression, typ: TypeVariable, offset: int, si
         && types@[0].typ == typ && types@[0].offset as int == offset && types@[0].size as int == size
 }
 
+/// what the rule records for `slot<mapping_ix<slot>[k]>` = `value`: two judgements appended to the log,
+///   fresh := packed[ span(type of `value`, bit_offset, one word) ]      slot's type := mapping<type of k, fresh>
+pub open spec fn access_logged(log0: Seq<(TypeVariable, TypeExpression)>, log: Seq<(TypeVariable, TypeExpression)>,
+                               fresh: TypeVariable, value: TCSV, k: TCSV, slot: TCSV, bit_offset: int) -> bool {
+    let n = log0.len() as int;
+    &&& log.len() == n + 2 && log.subrange(0, n) =~= log0
+    &&& log[n].0 == fresh
+    &&& packs_one(log[n].1, value.aux(), bit_offset, 256)
+    &&& log[n + 1] == (slot.aux(), TypeExpression::Mapping { key: k.aux(), value: fresh })
+}
+
 //@extract file=src/tc/rule/mapping_access.rs path="struct MappingAccessRule" kind=type
 //@end
 //@extract file=src/tc/rule/mapping_access.rs path="impl InferenceRule for MappingAccessRule" kind=header
@@ -274,18 +286,57 @@ state.allocate_ty_var_exec()
         ensures
             r is Ok,
             // the value span starts at bit projection * 256 EXACTLY (no wrap-around) and is one word wide
-            mapping_site(**value) matches Some((k, slot, p)) ==> proj(p) * 256 <= usize::MAX ==> {
-                let log0 = inferred(old(state));
-                let log = inferred(final(state));
-                &&& log.len() == log0.len() + 2 && log.subrange(0, log0.len() as int) == log0
-                &&& log[log0.len() as int].0 == fresh_tv(old(state))
-                &&& packs_one(log[log0.len() as int].1, value.aux(), proj(p) * 256, 256)
-                &&& log[log0.len() + 1] == (slot.aux(), TypeExpression::Mapping { key: k.aux(), value: fresh_tv(old(state)) })
-            },                                                                                    //@ob C12.arith.mapping_access.span_offset_exact
+            mapping_site(**value) matches Some((k, slot, p)) ==> proj(p) * 256 <= usize::MAX ==>
+                access_logged(inferred(old(state)), inferred(final(state)), fresh_tv(old(state)), **value, k, slot, proj(p) * 256),   //@ob C12.arith.mapping_access.span_offset_exact
             // a projection whose bit offset does not fit says nothing (it must not wrap into a small offset)
             mapping_site(**value) matches Some((k, slot, p)) ==> proj(p) * 256 > usize::MAX ==>
                 inferred(final(state)) == inferred(old(state)),                                  //@ob C12.arith.mapping_access.unrepresentable_projection_infers_nothing
             mapping_site(**value) is None ==> inferred(final(state)) == inferred(old(state)),       //@ob C12.arith.mapping_access.only_on_mapping_access
+//@end
+}
+
+// =========================== memory.rs ===========================
+//@extract file=src/vm/state/memory.rs path="enum MemStoreSize" kind=type
+//@end
+//@extract file=src/vm/state/memory.rs path="struct MemStore" kind=type
+//@end
+//@extract file=src/vm/state/memory.rs path="struct Memory" kind=type
+//@end
+
+impl RSV {
+    // A-CALLEE: `RSV::new` — contract proved in unit value_size under the precondition "the tree below has
+    // fewer than usize::MAX nodes" (`child_size() + 1`); that precondition is NOT carried here (see //@dropped).
+    #[verifier::external_body]
+    pub fn new(instruction_pointer: u32, data: RSVD, provenance: Provenance, value_size_limit: Option<usize>) -> (r: RuntimeBoxedVal)
+    { unimplemented!() }
+}
+
+// R-LOOP-OPAQUE stand-in for `for w in (RANGE).step_by(STEP) { values.push(get_or_initialize(map, &w).clone()) }`:
+// the RANGE and STEP expressions stay in the verified text as arguments; the loop body may do anything to
+// the map and to `values` (no postcondition = havoc). A-STD: `Iterator::step_by` panics on a zero step.
+#[verifier::external_body]
+fn opaque_for(range: core::ops::Range<usize>, step: usize, map: &mut HashMap<usize, Vec<MemStore>>, values: &mut Vec<RuntimeBoxedVal>)
+    requires step > 0,
+{ unimplemented!() }
+
+//@extract file=src/vm/state/memory.rs path="impl Memory" kind=header
+//@end
+    // A-CALLEE: `get_or_initialize` (HashMap Entry API + closure; hands out a reference into the map): opaque,
+    // no contract. It cannot panic: the vector it reads `last()` of is created non-empty and only pushed to.
+    #[verifier::external_body]
+    fn get_or_initialize<'a, K>(map: &'a mut HashMap<K, Vec<MemStore>>, key: &'a K) -> &'a RuntimeBoxedVal
+    { unimplemented!() }
+
+//@extract file=src/vm/state/memory.rs path="impl Memory|fn decompose_size"
+//@ret r
+//@end
+//@extract file=src/vm/state/memory.rs path="impl Memory|fn load_slice"
+//@ret r
+//@rw R-LOOP-OPAQUE
+//@old
+for $3 in ($1).step_by($2) { $4 }
+//@new
+opaque_for($1, $2, &mut self.constant_offsets, &mut values);
 //@end
 }
 
